@@ -22,6 +22,8 @@ BUDGET = {"quick": {"shards": 8, "examples": 600}, "thorough": {"shards": 16, "e
 
 
 _traced = {}
+FUZZ = {"thorough": {"runs": 15000, "seed_inputs": 16, "max_len": 4096,
+                     "include": ("leuvenmapmatching.matcher", "leuvenmapmatching.util", "leuvenmapmatching.map")}}
 
 
 def traced_classes():
